@@ -10,6 +10,7 @@ open TD TD.C12 TD.Proto
   path basename|dirname|stem <hex>               -> ok <hex>
   join <hex a> <hex b>                           -> ok <hex>
   walk <hex dirIn> <hex dirOut> <hex name>       -> ok <hex in> <hex out>
+  walkpath <hex dirIn> <hex dirOut> <hex,hex,..> -> ok <hex in> <hex out>   (recursive dirWalk, path components)
   order seq  <hex,hex,...>                       -> ok <hex,hex,...>
   order pool <size:hex,size:hex,...>             -> ok <hex,hex,...>
   sched <k> <tasks> <events>                     -> valid=<0|1> res=<..> tree=<..> sres=<..> stree=<..>
@@ -88,6 +89,12 @@ def step (line : String) : String :=
     match unhex a, unhex b, unhex n with
     | some a, some b, some n =>
       let r := walkPair (toStr a) (toStr b) (toStr n)
+      "ok " ++ hx r.1 ++ " " ++ hx r.2
+    | _, _, _ => "bad-op"
+  | ["walkpath", a, b, cs] =>
+    match unhex a, unhex b, hexList cs with
+    | some a, some b, some cs =>
+      let r := walkPath (toStr a) (toStr b) (cs.map toStr)
       "ok " ++ hx r.1 ++ " " ++ hx r.2
     | _, _, _ => "bad-op"
   | ["order", "seq", l] =>
